@@ -49,6 +49,9 @@ pub enum Kind {
     Half,
     Malformed,
     Panic,
+    /// the server's accept of this connection fails with ECONNABORTED (injected): it never holds a
+    /// slot and is never served
+    Aborted,
 }
 #[derive(Clone, Copy, Debug, PartialEq, Eq, Hash)]
 pub enum CEv {
@@ -71,7 +74,7 @@ fn settle(conns: &mut [MConn], n: usize) {
         for c in conns.iter_mut() {
             if c.accepted && !c.server_done {
                 let ends = match c.kind {
-                    Kind::Malformed | Kind::Panic => true,
+                    Kind::Malformed | Kind::Panic | Kind::Aborted => true,
                     _ => !c.client_open,
                 };
                 if ends {
@@ -93,7 +96,7 @@ fn settle(conns: &mut [MConn], n: usize) {
 fn c15_enabled(conns: &[MConn], n: usize, max_conns: usize) -> Vec<CEv> {
     let mut v = vec![];
     if conns.len() < max_conns {
-        for k in [Kind::Get, Kind::Silent, Kind::Half, Kind::Malformed] {
+        for k in [Kind::Get, Kind::Silent, Kind::Half, Kind::Malformed, Kind::Aborted] {
             v.push(CEv::Connect(k));
         }
         // a handler panic can only be armed deterministically when the connection is accepted at once
@@ -150,6 +153,7 @@ struct CConn {
 
 /// Run one C15 word on a fresh server; observations are checked after every event.
 pub fn c15_case(dir: &Path, n: usize, word: &[CEv]) -> Result<String, V> {
+    crate::iohook::accept_abort_clear();
     let srv = Srv::start(dir, &SrvCfg { max_connections: n, max_file_size: 1 << 31, gated: false }).map_err(mach)?;
     let get = cmd(&[b"GET", b"k"]);
     let mut model: Vec<MConn> = vec![];
@@ -160,10 +164,13 @@ pub fn c15_case(dir: &Path, n: usize, word: &[CEv]) -> Result<String, V> {
             let clones0 = srv.gate.clones();
             match *ev {
                 CEv::Connect(kind) => {
-                    let mut s = srv.connect().map_err(|e| mach(format!("connect: {}", e)))?;
+                    let mut s = if kind == Kind::Aborted { srv.connect_to_be_aborted() } else { srv.connect() }.map_err(|e| mach(format!("connect: {}", e)))?;
                     model.push(MConn { kind, client_open: true, accepted: false, server_done: false });
                     match kind {
                         Kind::Get => s.write_all(&get).map_err(|e| mach(e.to_string()))?,
+                        Kind::Aborted => {
+                            let _ = s.write_all(&get);
+                        }
                         Kind::Silent => {}
                         Kind::Half => s.write_all(&get[..get.len() / 2]).map_err(|e| mach(e.to_string()))?,
                         Kind::Malformed => s.write_all(b"!this is not RESP\r\n").map_err(|e| mach(e.to_string()))?,
@@ -248,7 +255,7 @@ fn check_c15_state(srv: &Srv, model: &[MConn], cl: &mut [CConn], e0: u64, n: usi
                 other => return Err(("served-connection-not-answered".into(), ctx(&format!("connection #{} should be served by now (fewer than {} handlers alive) but: {:?}", i, n, other.map(|x| x.0))))),
             }
         }
-        if m.accepted && matches!(m.kind, Kind::Malformed | Kind::Panic) && !cl[i].saw_end {
+        if m.accepted && matches!(m.kind, Kind::Malformed | Kind::Panic | Kind::Aborted) && !cl[i].saw_end {
             let (b, how) = read_to_end(s, T20);
             cl[i].bytes.extend_from_slice(&b);
             if how == "timeout" {
@@ -351,6 +358,7 @@ fn parse_cev(s: &str) -> Option<CEv> {
         "Half" => Some(Kind::Half),
         "Malformed" => Some(Kind::Malformed),
         "Panic" => Some(Kind::Panic),
+        "Aborted" => Some(Kind::Aborted),
         _ => None,
     };
     if let Some(r) = s.strip_prefix("Connect(") {
@@ -1310,7 +1318,7 @@ pub fn replay(prop: &str, case: &Value, dir: &Path) -> Vec<Violation> {
 pub fn report_meta(prop: &str, tier: Tier, common: Vec<String>) -> (String, Value, Vec<String>) {
     match prop {
         "C15" => (
-            format!("explicit-state search over connection-event words on a fresh real server per word, max_connections N in {{1, 2}}: events = connect a client of kind {{sends GET, silent, half a frame, malformed bytes (server closes), handler panic (armed panic in the handler task)}} or close the i-th open client; all words up to length {} with at most {} connections. After EVERY event: connections the accept model (FIFO accept while fewer than N handlers are alive) says are served must be answered (blocking wait), connections it says are waiting must have received nothing at quiescence, and the number of commands that reached the store must equal the model's. After the word: N fresh connections are served concurrently, one more is not, and it is served as soon as one of the N closes. Distinct+non-trivial = distinct words; states = distinct model states.", tier.pick("6", "7-8"), tier.pick(3, 4)),
+            format!("explicit-state search over connection-event words on a fresh real server per word, max_connections N in {{1, 2}}: events = connect a client of kind {{sends GET, silent, half a frame, malformed bytes (server closes), handler panic (armed panic in the handler task), accept of this connection fails with ECONNABORTED (injected in the interposed accept4)}} or close the i-th open client; all words up to length {} with at most {} connections. After EVERY event: connections the accept model (FIFO accept while fewer than N handlers are alive) says are served must be answered (blocking wait), connections it says are waiting must have received nothing at quiescence, and the number of commands that reached the store must equal the model's. After the word: N fresh connections are served concurrently, one more is not, and it is served as soon as one of the N closes. Distinct+non-trivial = distinct words; states = distinct model states.", tier.pick("6", "7-8"), tier.pick(3, 4)),
             json!({"max_connections": [1, 2], "word_length": tier.pick(6, 8), "plans": tier.pick("N=1 len 6; N=2 len 6", "N=1 len 7; N=2 len 7; N=2 len 8")}),
             common,
         ),
